@@ -562,6 +562,7 @@ package emitter
 
 // ---- the work list (C01, C04, C05, C18) ----
 
+//@ pred IsTerminatorStmt(s ast.Statement) = typeis(s, ast.CommandStatement) && as(s, ast.CommandStatement).Name != nil && (as(s, ast.CommandStatement).Name.Value == "end" || as(s, ast.CommandStatement).Name.Value == "return")
 //@ pred IsPlainStmt(s ast.Statement) = (typeis(s, ast.CommandStatement) && as(s, ast.CommandStatement).Name != nil) || (typeis(s, ast.LabelStatement) && as(s, ast.LabelStatement).Name != nil)
 
 // a finalised chunk: only commands and labels left, destinations in range, branch behaviour well-formed
@@ -573,6 +574,14 @@ package emitter
 // the output starts with the definition of the script's own label, exported exactly when its scope is global (C08, C15)
 //@   ensures [C08,C15:script-label] result1 == nil ==> (len(piecesOf(result0)) >= 1 && piecesOf(result0)[0] == (scriptStmt.Scope == token.GLOBAL ? sprintf("%s::\n", scriptStmt.Name.Value) : sprintf("%s:\n", scriptStmt.Name.Value)))
 //@   loop 1
+// C01, C10: the chunk taken from the list keeps a prefix of its statements; the prefix stops at the first statement that
+// is neither a command nor a label, at the end of the chunk, or at an 'end' / 'return' that is the chunk's last statement
+//@     transition [C01,C04,C10:scan-stop] indom(finalChunks, prev(remainingChunks[0].id)) && finalChunks[prev(remainingChunks[0].id)] != nil
+//@        && len(finalChunks[prev(remainingChunks[0].id)].statements) <= len(prev(remainingChunks[0].statements))
+//@        && (forall k int :: {finalChunks[prev(remainingChunks[0].id)].statements[k]} (0 <= k && k < len(finalChunks[prev(remainingChunks[0].id)].statements)) ==> finalChunks[prev(remainingChunks[0].id)].statements[k] == prev(remainingChunks[0].statements)[k])
+//@        && (len(finalChunks[prev(remainingChunks[0].id)].statements) == len(prev(remainingChunks[0].statements))
+//@            || !IsPlainStmt(prev(remainingChunks[0].statements)[len(finalChunks[prev(remainingChunks[0].id)].statements)])
+//@            || (len(finalChunks[prev(remainingChunks[0].id)].statements) == len(prev(remainingChunks[0].statements)) - 1 && IsTerminatorStmt(prev(remainingChunks[0].statements)[len(prev(remainingChunks[0].statements)) - 1])))
 //@     use pigeonhole(finalChunks)
 //@     invariant [C04,C05:wl-count] chunkCounter >= 0 && len(finalChunks) + len(remainingChunks) == chunkCounter + 1 && len(finalChunks) >= 0
 //@     invariant [C04,C05:wl-pending] forall j int :: {remainingChunks[j]} (0 <= j && j < len(remainingChunks)) ==> (PendingOK(remainingChunks[j], chunkCounter) && fresh(remainingChunks[j]) && !indom(finalChunks, remainingChunks[j].id))
